@@ -390,6 +390,18 @@ def parser_modules(F: Facts) -> Tuple[Module, Module, Dict[str, Any]]:
                 if mr[0] != 'pkgmod' and isinstance(kw['module'], ast.Name):
                     mr = _module_behind_parameter(F, fi.module, n, kw['module'].id) or mr
                     info['injectable'] = True       # the stock module is a default that a caller may replace
+                if mr[0] != 'pkgmod' and isinstance(kw['module'], ast.Attribute) and isinstance(kw['module'].value, ast.Name) \
+                        and kw['module'].value.id in ('self', 'cls'):
+                    # module=self.lexer_module: a class attribute of the parser class (a subclass may point it elsewhere)
+                    for cq_, ci_ in F.classes.items():
+                        if ci_.module is fi.module and any(x is n for x in ast.walk(ci_.node)):
+                            for st_ in ci_.node.body:
+                                tg_ = st_.targets if isinstance(st_, ast.Assign) else ([st_.target] if isinstance(st_, ast.AnnAssign) and st_.value is not None else [])
+                                if any(isinstance(t_, ast.Name) and t_.id == kw['module'].attr for t_ in tg_):
+                                    r2_ = F.resolve_expr(fi.module, st_.value)
+                                    if r2_[0] == 'pkgmod':
+                                        mr = r2_
+                                        info['injectable'] = True
                 if mr[0] != 'pkgmod' or mr[1] not in F.modules:
                     raise AnalysisError('%s: module=%s does not resolve to a package module' % (q, norm(kw['module'])))
                 if r[1].endswith('yacc.yacc'):
